@@ -688,27 +688,236 @@ Proof.
     assert (Hin : In k (seq 0 n)) by (apply in_seq; lia).
     pose proof (proj2 (Bool.not_true_iff_false _) Hside) as Hn'. apply Hn'.
     apply existsb_exists. exists k. split; [exact Hin|]. cbn [snd]. apply on_surface_iff.
-    unfold surf_f. cbn [vx vy vz]. rewrite <- (prism_theta_hval n orient x y Hn k) in Heq. cbv zeta in Heq.
+    unfold surf_f. cbn [vx vy vz]. unfold m in Heq. rewrite <- (prism_theta_hval n orient x y Hn k) in Heq. cbv zeta in Heq.
     numR. lra. }
   assert (Hall : all_hold (map (fun k => let th := prism_theta n orient k in
                                          (BIn, SPlane (V3 (ncos th) (nsin th) n0) a)) (seq 0 n)) (V3 x y z) = true
                  <-> forall k, (k < n)%nat -> hval n orient x y (Z.of_nat k - m) < a).
   { unfold all_hold. rewrite forallb_map, forallb_seq. split; intros Hx k Hk; specialize (Hx k Hk).
     - cbn [fst snd] in Hx. apply sense_in_iff in Hx. unfold surf_f in Hx. cbn [vx vy vz] in Hx.
-      rewrite <- (prism_theta_hval n orient x y Hn k). cbv zeta. numR. lra.
+      unfold m. rewrite <- (prism_theta_hval n orient x y Hn k). cbv zeta. numR. lra.
     - cbn [fst snd]. apply sense_in_iff. unfold surf_f. cbn [vx vy vz].
-      rewrite <- (prism_theta_hval n orient x y Hn k) in Hx. cbv zeta in Hx. numR. lra. }
+      unfold m in Hx. rewrite <- (prism_theta_hval n orient x y Hn k) in Hx. cbv zeta in Hx. numR. lra. }
   rewrite Hall. rewrite forallb_seq.
   pose proof (shift_cover n orient x y Hn m (fun v => v < a)) as Hc1.
   pose proof (shift_cover n orient x y Hn m (fun v => v <> a)) as Hc2.
   unfold surf_f in Hz. cbn [vget vx vy vz] in *. 
   split.
-  - intros [[Hz1 [Hz2 _]] Hk]. split; [vsimp; lra|].
-    intros k Hk'. apply Rleb_true. rewrite (prism_def_hval n orient x y k). cbv zeta.
+  - intros [[Hz1 [Hz2 _]] Hk]. split; [unfold surf_f in Hz1, Hz2; vsimp; lra|].
+    intros k Hk'. numR. apply Rleb_true. rewrite (prism_def_hval n orient x y k).
     apply Rlt_le. now apply (proj1 Hc1 Hk).
   - intros [Hzz Hk]. split.
-    + destruct Hz as (Hz1 & Hz2 & _). vsimp. repeat split; lra.
-    + apply (proj2 Hc1). intros j Hj. specialize (Hk j Hj). apply Rleb_true in Hk.
-      rewrite (prism_def_hval n orient x y j) in Hk. cbv zeta in Hk.
+    + destruct Hz as (Hz1 & Hz2 & _). unfold surf_f. vsimp. repeat split; lra.
+    + apply (proj2 Hc1). intros j Hj. specialize (Hk j Hj). numR. apply Rleb_true in Hk.
+      rewrite (prism_def_hval n orient x y j) in Hk.
       pose proof (proj1 Hc2 Hside' j Hj). cbn beta in *. lra.
+Qed.
+
+(** ** enclosed angles (SolidEnclosedAngle): periodicity in the start angle and
+    the complement construction used for interior > 1/2 *)
+Lemma sincos_period_nat a (k : nat) :
+  sin (a + 2 * PI * INR k) = sin a /\ cos (a + 2 * PI * INR k) = cos a.
+Proof.
+  replace (a + 2 * PI * INR k) with (a + 2 * INR k * PI) by ring.
+  split; [apply sin_period | apply cos_period].
+Qed.
+Lemma sincos_period_Z a (k : Z) :
+  sin (a + 2 * PI * IZR k) = sin a /\ cos (a + 2 * PI * IZR k) = cos a.
+Proof.
+  destruct (Z_le_gt_dec 0 k) as [Hk|Hk].
+  - rewrite <- (Z2Nat.id k Hk), <- INR_IZR_INZ. apply sincos_period_nat.
+  - pose proof (sincos_period_nat (a + 2 * PI * IZR k) (Z.to_nat (- k))) as [H1 H2].
+    rewrite INR_IZR_INZ, Z2Nat.id, opp_IZR in H1, H2 by lia.
+    replace (a + 2 * PI * IZR k + 2 * PI * - IZR k) with a in H1, H2 by ring.
+    split; congruence.
+Qed.
+
+Lemma in_angle_shift s i (k : Z) p : in_angle (s - IZR k) i p = in_angle s i p.
+Proof.
+  unfold in_angle, cos_turn, sin_turn. rewrite npi_PI. numR.
+  destruct (sincos_period_Z (2 * PI * s) (- k)) as [H1 H2]. rewrite opp_IZR in H1, H2.
+  replace (2 * PI * (s - IZR k)) with (2 * PI * s + 2 * PI * - IZR k) by ring.
+  now rewrite H1, H2.
+Qed.
+
+Lemma angle_complement_core x y r sb cb :
+  0 <= r -> r * r = x * x + y * y -> sb <= 0 -> sb * sb + cb * cb = 1 ->
+  y <> 0 -> y * cb - x * sb <> 0 ->
+  ((0 <= y \/ x <= r * cb) <-> ~ (0 <= y * cb - x * sb /\ r * cb <= x * cb + y * sb)).
+Proof.
+  intros Hr Hrr Hs Hsc Hy HY.
+  set (X2 := x * cb + y * sb). set (Y2 := y * cb - x * sb) in *.
+  assert (Hr2 : r * r = X2 * X2 + Y2 * Y2).
+  { unfold X2, Y2. rewrite Hrr. transitivity ((x * x + y * y) * (sb * sb + cb * cb)); [rewrite Hsc; ring | ring]. }
+  assert (HA : (0 < Y2 /\ 0 < - sb * X2 - cb * Y2) <-> (0 <= Y2 /\ r * cb <= X2)).
+  { apply wedge_core; try lra; try nra.
+    replace (- sb * X2 - cb * Y2) with (- y * (sb * sb + cb * cb)) by (unfold X2, Y2; ring).
+    rewrite Hsc. lra. }
+  assert (EA : - sb * X2 - cb * Y2 = - y).
+  { replace (- sb * X2 - cb * Y2) with (- y * (sb * sb + cb * cb)) by (unfold X2, Y2; ring). rewrite Hsc. ring. }
+  rewrite EA in HA.
+  assert (HB : (0 < - y /\ 0 < - sb * x - cb * (- y)) <-> (0 <= - y /\ r * cb <= x)).
+  { apply wedge_core; try lra; try nra.
+    replace (- sb * x - cb * - y) with Y2 by (unfold Y2; ring). exact HY. }
+  replace (- sb * x - cb * - y) with Y2 in HB by (unfold Y2; ring).
+  rewrite <- HA. split.
+  - intros Hl [H1 H2]. assert (Hb : 0 <= - y /\ r * cb <= x) by (apply HB; lra).
+    destruct Hl as [Hl|Hl]; [lra|]. destruct Hb as [_ Hb]. assert (Hx : x = r * cb) by lra.
+    (* then Y2 = 0 *)
+    assert (Hy2 : y * y = (r * sb) * (r * sb)).
+    { replace (r * sb * (r * sb)) with (r * r * (1 - cb * cb)) by (rewrite <- Hsc; ring).
+      assert (Hxx : x * x = r * cb * (r * cb)) by (rewrite Hx; ring). nra. }
+    assert (Hrs : r * sb <= 0) by nra.
+    assert (Hyy : y = r * sb) by nra.
+    apply HY. unfold Y2. rewrite Hyy, Hx. ring.
+  - intros Hn. destruct (Rle_or_lt 0 y) as [Hy0|Hy0]; [left; exact Hy0|right].
+    destruct (Rle_or_lt x (r * cb)) as [Hx|Hx]; [exact Hx|]. exfalso. apply Hn.
+    assert (0 < - y /\ 0 < Y2) by (apply HB; lra). lra.
+Qed.
+
+Lemma in_angle_complement s i x y z :
+  / 2 < i < 1 ->
+  y * cos (2 * PI * s) - x * sin (2 * PI * s) <> 0 ->
+  y * cos (2 * PI * (s + i)) - x * sin (2 * PI * (s + i)) <> 0 ->
+  in_angle s i (V3 x y z) = negb (in_angle (s + i) (1 - i) (V3 x y z)).
+Proof.
+  intros Hi Hy1 Hy2. unfold in_angle, cos_turn, sin_turn. rewrite npi_PI. numR. unfold n2. numR. cbn [vx vy vz].
+  destruct (Rleb_spec i (1 / 2)) as [Hbad|_]; [lra|].
+  destruct (Rleb_spec (1 - i) (1 / 2)) as [_|Hbad]; [|lra].
+  set (a := 2 * PI * s) in *. set (b := 2 * PI * i) in *.
+  replace (2 * PI * (s + i)) with (a + b) in * by (unfold a, b; ring).
+  assert (Hcb : cos (2 * PI * (1 - i)) = cos b).
+  { replace (2 * PI * (1 - i)) with (- b + 2 * PI) by (unfold b; ring).
+    rewrite cos_plus, cos_2PI, sin_2PI, cos_neg. ring. }
+  rewrite Hcb. rewrite sin_plus, cos_plus in *.
+  set (X := x * cos a + y * sin a) in *. set (Y := y * cos a - x * sin a) in *.
+  assert (EX : x * (cos a * cos b - sin a * sin b) + y * (sin a * cos b + cos a * sin b) = X * cos b + Y * sin b)
+    by (unfold X, Y; ring).
+  assert (EY : y * (cos a * cos b - sin a * sin b) - x * (sin a * cos b + cos a * sin b) = Y * cos b - X * sin b)
+    by (unfold X, Y; ring).
+  rewrite EX, EY in *.
+  assert (Hb : PI <= b <= 2 * PI).
+  { unfold b. pose proof PI_RGT_0. split; nra. }
+  assert (Hsb : sin b <= 0) by (apply sin_le_0; lra).
+  assert (Hsc : sin b * sin b + cos b * cos b = 1) by (pose proof (sin2_cos2 b) as Hq; unfold Rsqr in Hq; lra).
+  assert (Hr0 : 0 <= sqrt (X * X + Y * Y)) by apply sqrt_pos.
+  assert (Hrr : sqrt (X * X + Y * Y) * sqrt (X * X + Y * Y) = X * X + Y * Y) by (apply sqrt_sqrt; nra).
+  assert (Hrot : (X * cos b + Y * sin b) * (X * cos b + Y * sin b) + (Y * cos b - X * sin b) * (Y * cos b - X * sin b)
+                 = X * X + Y * Y).
+  { replace ((X * cos b + Y * sin b) * (X * cos b + Y * sin b) + (Y * cos b - X * sin b) * (Y * cos b - X * sin b))
+      with ((X * X + Y * Y) * (sin b * sin b + cos b * cos b)) by ring. rewrite Hsc. ring. }
+  rewrite Hrot.
+  pose proof (angle_complement_core X Y (sqrt (X * X + Y * Y)) (sin b) (cos b) Hr0 Hrr Hsb Hsc Hy1 Hy2) as Hcore.
+  destruct (Rleb_spec 0 Y) as [H1|H1], (Rleb_spec X (sqrt (X * X + Y * Y) * cos b)) as [H2|H2],
+           (Rleb_spec 0 (Y * cos b - X * sin b)) as [H3|H3],
+           (Rleb_spec (sqrt (X * X + Y * Y) * cos b) (X * cos b + Y * sin b)) as [H4|H4];
+    cbn; try reflexivity; exfalso; tauto.
+Qed.
+
+(** ** the hypotheses of the theorems above are satisfiable *)
+Example box_offsurface : on_any (box_surfaces 1 2 3) (V3 0 0 0) = false.
+Proof. unfold box_surfaces, planeX, planeY, planeZ. senses. unfold surf_f. vsimp. repeat split; lra. Qed.
+Example sphere_offsurface : on_any [(BIn, SSphereCentered (2 * 2))] (V3 0 0 0) = false.
+Proof. senses. unfold surf_f. vsimp. repeat split; lra. Qed.
+Example cyl_offsurface : on_any (cyl_surfaces 1 2) (V3 0 0 0) = false.
+Proof. unfold cyl_surfaces, planeZ. senses. unfold surf_f. vsimp. repeat split; lra. Qed.
+Example cone_hyps : 0 < 1 /\ 1 <> 2 /\ soft_equal (T:=R) (1 / 100000000) 1 2 = false.
+Proof.
+  repeat split; try lra. unfold soft_equal, nfmax. numR. unfold nQ. numR.
+  replace (1 - 2) with (- (1)) by ring. rewrite Rabs_Ropp, !Rabs_R1, (Rabs_pos_eq 2) by lra.
+  repeat (match goal with |- context [Rltb ?a ?b] =>
+            lazymatch a with context [Rltb] => fail | _ =>
+              lazymatch b with context [Rltb] => fail | _ => destruct (Rltb_spec a b) end end end);
+    try reflexivity; exfalso; lra.
+Qed.
+Example ellipsoid_offsurface : on_any (ellipsoid_surfaces 1 2 3) (V3 0 0 0) = false.
+Proof. unfold ellipsoid_surfaces. senses. unfold surf_f. vsimp. repeat split; lra. Qed.
+Example ppiped_alpha0_offsurface :
+  0 < 1 /\ on_any (ppiped_surfaces_sc 1 1 1 0 1 (3 / 5) (4 / 5) 0 1) (V3 0 0 0) = false.
+Proof.
+  split; [lra|]. unfold ppiped_surfaces_sc, ppiped_vectors, planeZ. senses.
+  rewrite !plane_unit_value_pos, !plane_unit_value_neg.
+  grab_norm k1 Hk1; [lra|]. grab_norm k2 Hk2; [lra|].
+  rewrite !pos_mul_ne0 by assumption.
+  unfold cross. cbn [vx vy vz]. unfold surf_f. vsimp. repeat split; lra.
+Qed.
+Example wedge_hyps : 0 < / 4 <= / 2.
+Proof. lra. Qed.
+
+(** ** GenPrism: assembling the faces (structural part) *)
+Lemma lerp_poly_app s (l1 l2 h1 h2 : list (R * R)) : length l1 = length h1 ->
+  lerp_poly s (l1 ++ l2) (h1 ++ h2) = lerp_poly s l1 h1 ++ lerp_poly s l2 h2.
+Proof.
+  revert h1. induction l1 as [|a l1 IH]; intros [|b h1] Hl; cbn in *; try discriminate; [reflexivity|].
+  f_equal. apply IH. lia.
+Qed.
+Lemma rot1_lerp s (lo hi : list (R * R)) : length lo = length hi ->
+  rot1 (lerp_poly s lo hi) = lerp_poly s (rot1 lo) (rot1 hi).
+Proof.
+  destruct lo as [|a lo], hi as [|b hi]; cbn; intros Hl; try discriminate; [reflexivity|].
+  rewrite lerp_poly_app by lia. reflexivity.
+Qed.
+
+(** a face "agrees at p" when its built sense at p is the strict left-of test
+    against the interpolated edge ([genprism_twisted_face_iff],
+    [genprism_planar_face_iff] establish this for twisted faces and for planar
+    faces with parallel edges) *)
+Definition face_agrees (tol hz : R) (p : vec3 R) (li lj hi_ hj : R * R) : Prop :=
+  let f := genprism_face tol hz li lj hi_ hj in
+  let s := (vz p + hz) / (2 * hz) in
+  on_surface (snd f) p = false /\
+  (sense_holds (fst f) (snd f) p = true <-> left_of (lerp_pt s li hi_) (lerp_pt s lj hj) (vx p) (vy p) = true).
+
+Inductive Forall4 {A} (P : A -> A -> A -> A -> Prop) : list A -> list A -> list A -> list A -> Prop :=
+| F4_nil : Forall4 P [] [] [] []
+| F4_cons a b c d la lb lc ld : P a b c d -> Forall4 P la lb lc ld -> Forall4 P (a :: la) (b :: lb) (c :: lc) (d :: ld).
+
+Lemma genprism_faces_iff tol hz p lo loj hi hij :
+  Forall4 (face_agrees tol hz p) lo loj hi hij ->
+  let s := (vz p + hz) / (2 * hz) in
+  (all_hold (genprism_faces tol hz lo loj hi hij) p = true
+   <-> in_polygon (lerp_poly s lo hi) (lerp_poly s loj hij) (vx p) (vy p) = true).
+Proof.
+  intros HF s. induction HF as [|a b c d la lb lc ld [Hoff Hiff] HF IH]; [cbn; tauto|].
+  cbn [genprism_faces lerp_poly in_polygon]. 
+  destruct (genprism_face tol hz a b c d) as [sn sf] eqn:Ef. cbn [fst snd] in *.
+  rewrite all_hold_cons, andb_true_iff. fold s in Hiff. rewrite Hiff, IH. tauto.
+Qed.
+
+Theorem genprism_surfaces_iff_inside_partial tol hz lo hi p :
+  0 < hz -> length lo = length hi ->
+  on_any [(BOut, planeZ (- hz)); (BIn, planeZ hz)] p = false ->
+  Forall4 (face_agrees tol hz p) lo (rot1 lo) hi (rot1 hi) ->
+  (all_hold (genprism_surfaces tol hz lo hi DegNone) p = true <-> inside_genprism hz lo hi p = true).
+Proof.
+  destruct p as [x y z]. intros Hz Hlen Hon HF. unfold genprism_surfaces, inside_genprism, planeZ in *.
+  cbn [app]. senses_in Hon. rewrite !all_hold_cons. rewrite !sense_in_iff, !sense_out_iff.
+  pose proof (genprism_faces_iff tol hz (V3 x y z) lo (rot1 lo) hi (rot1 hi) HF) as Hf. cbv zeta in Hf.
+  cbn [vx vy vz] in *. rewrite Hf. rewrite rot1_lerp by exact Hlen.
+  bools. numR. unfold n2. numR. unfold surf_f in *. vsimp.
+  destruct Hon as (H1 & H2 & _). split; intros [Ha Hb]; (split; [lra | tauto]) || (repeat split; try lra; tauto).
+Qed.
+
+(** ** soft de-duplication (partial: axis-aligned planes only): replacing a
+    plane by one whose position differs by at most eps does not change the
+    sense of any point farther than eps from it *)
+Theorem soft_dedup_plane_aligned_partial ax d d' eps (p : vec3 R) sn :
+  Rabs (d - d') <= eps -> eps < Rabs (vget ax p - d) ->
+  sense_holds sn (SPlaneAligned ax d) p = sense_holds sn (SPlaneAligned ax d') p.
+Proof.
+  intros Hd Hp.
+  assert (Hsame : (surf_f (SPlaneAligned ax d) p < 0 <-> surf_f (SPlaneAligned ax d') p < 0) /\
+                  (0 < surf_f (SPlaneAligned ax d) p <-> 0 < surf_f (SPlaneAligned ax d') p)).
+  { unfold surf_f. set (v := vget ax p) in *.
+    unfold Rabs in *. destruct (Rcase_abs (d - d')), (Rcase_abs (v - d)); split; split; intros; lra. }
+  destruct Hsame as [Hin Hout].
+  destruct sn.
+  - destruct (sense_holds BIn (SPlaneAligned ax d) p) eqn:E1, (sense_holds BIn (SPlaneAligned ax d') p) eqn:E2;
+      try reflexivity.
+    + apply sense_in_iff, Hin, sense_in_iff in E1. congruence.
+    + apply sense_in_iff, Hin, sense_in_iff in E2. congruence.
+  - destruct (sense_holds BOut (SPlaneAligned ax d) p) eqn:E1, (sense_holds BOut (SPlaneAligned ax d') p) eqn:E2;
+      try reflexivity.
+    + apply sense_out_iff, Hout, sense_out_iff in E1. congruence.
+    + apply sense_out_iff, Hout, sense_out_iff in E2. congruence.
 Qed.
